@@ -1,0 +1,14 @@
+//go:build verif
+
+package sse
+
+// VerifBeforeDeliver, when set, is called at the top of every per-client delivery goroutine
+// started by Send. It lets a verification harness hold a delivery back until a client has
+// disconnected. It is only compiled with the "verif" build tag.
+var VerifBeforeDeliver func()
+
+func verifBeforeDeliver() {
+	if f := VerifBeforeDeliver; f != nil {
+		f()
+	}
+}
